@@ -344,6 +344,20 @@ def run(ctx, params):
             ctx.count("hand_written_documents")
             ctx.case(judge, ctx, t, "hand-written document")
             emlkit.discard(t)
+    # every element the library knows once as the root of a small valid tree
+    for e in mrule.node_names():
+        if gen.buildable(e):
+            t = gen.minimal_tree(e)
+            ctx.count("vocabulary_sweep_trees")
+            ctx.case(judge, ctx, t, f"vocabulary sweep: <{e}>")
+            emlkit.discard(t)
+    # every element the library knows once as the root of a small valid tree
+    for e in mrule.node_names():
+        if gen.buildable(e):
+            t = gen.minimal_tree(e)
+            ctx.count("vocabulary_sweep_trees")
+            ctx.case(judge, ctx, t, f"vocabulary sweep: <{e}>")
+            emlkit.discard(t)
     # responsible parties identified through every spelling of the ORCID directory in circulation (read-only for evaluation too)
     for spelling in ("https://orcid.org", "https://orcid.org/", "http://orcid.org", "http://orcid.org/", "https://www.orcid.org", "https://www.orcid.org/",
                      "ORCID", " https://orcid.org ", "https://ror.org", ""):
